@@ -138,7 +138,7 @@ Definition c01_run (fam : string) (args : list val) : option string :=
     match args with
     | [k] => Some (match as_Z k with
                    | 0 => "30" | 1 => "14" | 2 => "[15, 8, 6, 6, 5, 28]" | 3 => "[1, 7, 3][9, 3]"
-                   | 4 => "1227002" | 5 => "336133" | 6 => "564" | 7 => "123470430" | _ => "?" end)%Z
+                   | 4 => "1227002" | 5 => "336133" | 6 => "564" | 7 => "123470430" | 8 => "2266411939" | _ => "?" end)%Z
     | _ => None
     end
   else if String.eqb fam "c01.ctfe" then
